@@ -230,6 +230,10 @@ def check(ctx: Ctx):
         check_subject_wiring(ctx)
     except (Undecided, AnchorMissing) as e:
         ctx.undecided("R18.6", None, None, "R18.6:check_subject_wiring", f"{type(e).__name__}: {e}")
+    # the header is determined by the aggregator's own evaluator alone (no process-wide memo, R15.7)
+    from . import c03, c15
+
+    c03._guarded(ctx, "R15.7", c15.check_globals)
 
 
 _A = "panoptica/panoptica_aggregator.py"
